@@ -102,6 +102,11 @@ class CallMixin:
         rel, owner, fd = m
         if setter:
             fd = self.src.find(rel, f"{owner}.{base}@setter")
+        decs = [dec_name(d) for d in fd.decorator_list]
+        if "staticmethod" in decs:
+            selfv = None
+        elif "classmethod" in decs:
+            selfv = FuncRef(cls, "class")
         # virtual dispatch: if a declared subclass overrides, a contract must be registered on the base
         return self.call_function(rel, f"{owner}.{name}", fd, selfv, args, kwargs, st, node, owner_cls=owner, static_cls=cls)
 
@@ -182,6 +187,7 @@ class CallMixin:
     def inline_call(self, rel, qual, fd, bound, st, node, con, owner_cls):
         if self.call_depth > MAX_INLINE_DEPTH:
             raise OutOfSubset(f"inline depth exceeded at {qual}", node)
+        self.index_function(fd)
         callee = st.copy()
         callee.env = dict(bound)
         saved = (self.file, self.cur_contract, self.loop_counter, self.cls_ctx)
@@ -225,6 +231,7 @@ class CallMixin:
             return [(bound, st)]
         callee = st.copy()
         callee.env = dict(clo.env)
+        callee.env.update(st.env)      # closures are only called from their defining frame: see its current bindings
         callee.env.update(bound)
         saved = self.loop_counter
         self.loop_counter = [1000]
@@ -241,8 +248,22 @@ class CallMixin:
         return out
 
     # ------------------------------------------------------------ contracts at call sites
+    def coerce_args(self, con, bound, st, node):
+        out = dict(bound)
+        for n, ty in con.params.items():
+            v = out.get(n)
+            if isinstance(v, SlotTy) and ty == ("ref", "Pulse"):
+                self.oblige(st, f"safe:slot-type-is-pulse@{self.ntag(node)}", v.kind == 2, "safety")
+                out[n] = Sym(v.pulse, ("ref", "Pulse"))
+            elif ty == "real" and isinstance(v, Sym) and v.ty == "int":
+                out[n] = Sym(z3.ToReal(v.t), "real")
+            elif ty == "real" and isinstance(v, OptV):
+                pass
+        return out
+
     def apply_contract(self, con, bound, st, node):
-        site = f"call:{con.qual}@{getattr(node, 'lineno', '?')}"
+        bound = self.coerce_args(con, bound, st, node)
+        site = f"call:{con.qual}@{self.ntag(node)}"
         old = st.heap
         c0 = Ctx(bound, old, old, st=st)
         # requires -> obligations
@@ -252,10 +273,12 @@ class CallMixin:
         # exceptional outcomes
         any_raise = []
         for exc, condf in con.raises.items():
-            cond = condf(c0)
+            only_if = isinstance(condf, tuple)
+            cond = (condf[1] if only_if else condf)(c0)
             if isinstance(cond, bool):
                 cond = z3.BoolVal(cond)
-            any_raise.append(cond)
+            if not only_if:
+                any_raise.append(cond)
             if self.feasible(st, cond):
                 s2 = st.copy()
                 s2.assume(cond)
